@@ -28,6 +28,13 @@ Proof. exact back_accept_fits. Qed.
 
 (* hyphenateWord writes hyphens[] only inside [0, wordSize): the array keeps its length for every
    dictionary and word, and no index below 0 is touched by the clamped loop *)
+(* the plain one-element copy of the backward stage loops, as in C01 *)
+Theorem back_stage_copy_fits : forall o m,
+  (back_correct_copy_rejects o m = false -> o < m) /\ (back_pass_copy_rejects o m = false -> o < m) /\
+  back_correct_copy_rejects o m = (o + 1 >? m) /\ back_pass_copy_rejects o m = (o + 1 >? m).
+Proof. exact EmitProofs.back_stage_copy_l. Qed.
+Print Assumptions back_stage_copy_fits.
+
 Theorem hyphens_length_preserved : forall t w, length (fst (walk t w)) = length w.
 Proof. exact HyphBounds.walk_length. Qed.
 Print Assumptions hyphens_length_preserved.
